@@ -59,10 +59,15 @@ def eval_graph(c, sub):
     P = graphs.presence_of(c, sub)
     ids = sorted(set(t for (_, _, t) in P))
     labellings = list(itertools.product('AB', repeat=n))
+    if c.get('focus'):
+        labellings = [labellings[0], labellings[-1], tuple('AB'[i % 2] for i in range(n)), tuple('AB'[(i // 2) % 2] for i in range(n))]
     swap = {'A': 'B', 'B': 'A'}
     case = lambda q: {'gconf': c, 'atoms': list(sub), 'query': q}
     starts = list(T) + [T[-1] + 2]
+    if c.get('focus'):
+        starts = [T[0], T[1]]
     deltas = c.get('deltas', [0, 1, 2, 3])
+    path_types = c.get('path_types', PATH_TYPES)
     Gs = {L: build_labelled(c, sub, L) for L in labellings}
     perms = [[1, 0] + list(range(2, n)), list(range(1, n)) + [0]]
     for start in starts:
@@ -75,7 +80,7 @@ def eval_graph(c, sub):
             for u in present:
                 bp = po.brute_paths(Pw, False, window_ids, u, None, None, None) if window_ids else set()
                 reach[u] = any(p[-1][1] != u for p in bp)
-            for pt in PATH_TYPES:
+            for pt in path_types:
                 R = {}
                 for L in labellings:
                     cnt['queries'] += 1
@@ -126,7 +131,7 @@ def eval_graph(c, sub):
                                 viols.append(Violation(PROP, 'invariance', {'kind': 'label-renaming-changes-score', 'path_type': pt}, q,
                                                        dict(det, node=repr(u), alpha=a, score=s, score_with_swapped_labels=_get(r2, a, u))))
                 # node renaming (a transposition and a full cycle generate every permutation)
-                if pt in ('shortest', 'foremost') and window_ids:
+                if pt in ('shortest', 'foremost') and window_ids and not c.get('focus'):
                     for L in labellings[1:-1:2] if c.get('light_renaming') else labellings:
                         if R[L] in (None, 'raised'):
                             continue
@@ -150,7 +155,7 @@ def eval_graph(c, sub):
                                                                 'node': repr(u), 'alpha': a, 'score': s, 'score_after_renaming': sp, 'start': start, 'delta': delta}))
     # sliding == pointwise
     mixed = [L for L in labellings if len(set(L)) > 1][:2] + [labellings[0]]
-    for L in mixed:
+    for L in ([] if c.get('focus') else mixed):
         for delta in deltas:
             for pt in PATH_TYPES:
                 cnt['queries'] += 1
@@ -192,13 +197,20 @@ def confs(tier, seed):
         c = graphs.gconf('DynGraph', 0, 3, 3, 4)
         c2 = graphs.gconf('DynGraph', 1, 3, 3, 3)
         c3 = graphs.gconf('DynGraph', 2, 3, 3, 2 + seed % 2)
-        return [c, c2, c3]
+        # 4 nodes: hop-distance profiles with holes ({1,3}) only exist from 4 nodes on; focused menu (uniform + 2 mixed
+        # labellings, start in the first two instants, full-width delta, no renaming/sliding) keeps it cheap
+        c4 = graphs.gconf('DynGraph', 0, 4, 3, 4)
+        c4.update({'focus': True, 'deltas': [2, 3], 'path_types': ['shortest', 'foremost', 'fastest_shortest']})
+        return [c, c2, c3, c4]
     out = []
     for fl in (0, 1):
         out.append(graphs.gconf('DynGraph', fl, 3, 3, 9))
         c = graphs.gconf('DynGraph', fl, 4, 3, 3)
         c['light_renaming'] = True
         out.append(c)
+        c4 = graphs.gconf('DynGraph', fl, 4, 4, 4)
+        c4.update({'focus': True, 'deltas': [2, 3]})
+        out.append(c4)
     return out
 
 
